@@ -22,6 +22,7 @@ type Ob struct {
 	Max  int      // maximum (0 = unbounded)
 	Req  []string // clauses
 	Req0 string   // one more clause, evaluated first (readability of long binding patterns)
+	When []string // selector clauses: the obligation is about the path states of a matching site in which these hold
 	Opt  bool     // Min = 0 allowed
 	Forbid bool   // every matching site is a violation (expected count zero)
 	MutOK []string // parameters (names from P) that the function may legitimately rebind before the sink
@@ -112,6 +113,7 @@ func RunE1(c *Ctx, prop string, obs []Ob) {
 			fresh = true
 		}
 		e.addRelevant(ob.Req...)
+		e.addRelevant(ob.When...)
 		e.addRelevant(ob.Req0)
 	}
 	if len(e.relevant) != nrel {
@@ -157,6 +159,10 @@ func evalOb(c *Ctx, e *e1, ob Ob) {
 	}
 	for _, r := range ob.Req {
 		clauses = append(clauses, mustClause(r))
+	}
+	var when []Clause
+	for _, w := range ob.When {
+		when = append(when, mustClause(w))
 	}
 	base := paramTerms(fi, ob.P)
 	kind := strings.Fields(ob.Kind)[0]
@@ -229,6 +235,11 @@ func evalOb(c *Ctx, e *e1, ob Ob) {
 					continue
 				}
 			}
+			if len(when) > 0 {
+				if r := solve(st, when, b); !r.ok {
+					continue
+				}
+			}
 			states = append(states, st)
 		}
 		if len(states) == 0 {
@@ -270,6 +281,9 @@ func evalOb(c *Ctx, e *e1, ob Ob) {
 	min := ob.Min
 	if min == 0 && !ob.Opt {
 		min = 1
+	}
+	if len(when) > 0 {
+		ob.Max = 0
 	}
 	if kind == "ret" && len(clauses) > 0 && ob.Pat == "" {
 		// every return of that status is held to the clauses: how many return statements there are is not a rule
